@@ -223,9 +223,10 @@ var c07FlagSubset = []uint32{0, 0xffff, uint32(scriptflag.UTXOAfterGenesis), uin
 	0xffff &^ uint32(scriptflag.UTXOAfterGenesis), 0xffff &^ uint32(scriptflag.VerifyCleanStack), uint32(scriptflag.UTXOAfterGenesis | scriptflag.VerifyCheckLockTimeVerify), 0x5555}
 
 // index spaces
-//   A: flagsweep   — every flag word 0..65535 x a 64-script subset, ctx 1, no debugger
-//   B: contexts    — script set x 16 flag words x 9 contexts x 5 indices x debuggers
-//   C: bytes       — every byte string of length<=2 as locking script x 3 unlocking seeds x 4 flag words x ctx {0,1}
+//
+//	A: flagsweep   — every flag word 0..65535 x a 64-script subset, ctx 1, no debugger
+//	B: contexts    — script set x 16 flag words x 9 contexts x 5 indices x debuggers
+//	C: bytes       — every byte string of length<=2 as locking script x 3 unlocking seeds x 4 flag words x ctx {0,1}
 func c07Sizes(thorough bool) (a, b, c uint64) {
 	ns := uint64(len(c07ScriptSet()))
 	sub := uint64(64)
